@@ -43,9 +43,9 @@ ALPHABET = [
     ("insert", "K", "all"), ("insert", "Km", "b0"), ("insert", "Na", "b1"), ("delete_channel", "K", "all"), ("delete_channel", "K", "b0"),
     ("delete_channel", "Km", "b0"), ("set", "radius", "last"), ("record", "v", "c0"), ("delete_recordings", "", "all"), ("stimulate", "", "c0"),
     ("clamp", "v", "last"), ("delete_stimuli", "", "all"), ("delete_clamps", "", "all"), ("make_trainable", "radius", "b0"),
-    ("delete_trainables", "", "all"), ("add_to_group", "g", "b1"), ("init_states", "", "all"), ("set_ncomp", "3", "b1"), ("connect", "Iono", "c0>last"),
+    ("delete_trainables", "", "all"), ("add_to_group", "g", "b1"), ("init_states", "", "all"), ("set_ncomp", "3", "b0"), ("connect", "Iono", "c0>last"),
     ("record", "IonotropicSynapse_s", "e2"), ("clamp", "IonotropicSynapse_s", "e2"),
-    ("set_ncomp", "1", "b2"), ("add_to_group", "h", "last"),
+    ("set_ncomp", "1", "b0"), ("add_to_group", "h", "last"),
 ]
 CHS = ["HH", "Na", "K", "Km", "CaL", "CaT", "Leak"]
 
@@ -124,6 +124,10 @@ def fresh(modname):
     m.set("radius", 1.0 + 0.1 * np.arange(n))
     m.set("length", 10.0 + np.arange(n))
     m.set("v", -70.0 + 0.5 * np.arange(n))
+    # branch b0 is uniform and carries every channel of the fresh module, so that set_ncomp may refine or coarsen it (a branch with
+    # per-compartment geometry, with one compartment, or without one of the module's channels is refused by design)
+    b0 = m.select(nodes=np.asarray(VIEWS[modname]["b0"]))
+    b0.set("radius", 1.35); b0.set("length", 13.0)
     m.branch(0).insert(HH()) if modname == "cell" else m.cell(0).insert(HH())
     if modname == "net":
         # synapse types interleaved in the edge table: Iono, Tanh, Iono, Iono (edge 2 has rank 1 within its type)
@@ -141,6 +145,9 @@ def fresh(modname):
 
 def view_of(m, modname, vname):
     rows = VIEWS[modname][vname]
+    if vname in ("b0", "b1", "b2") and modname == "cell":
+        # a branch view follows the branch through set_ncomp (its rows change); the other views are fixed row sets
+        return m.branch(int(vname[1]))
     return m if rows is None else m.select(nodes=np.asarray(rows))
 
 
